@@ -30,7 +30,8 @@ NS = {
     "style": "urn:oasis:names:tc:opendocument:xmlns:style:1.0",
 }
 ALL_FEATURES = ["colruns", "rowruns", "s-single", "s-noc", "paragraphs", "spans", "emptyp", "stored", "utf16",
-                "latin1", "colstyle", "trailing-empty-run", "annotations", "embedded-object", "links"]
+                "latin1", "colstyle", "trailing-empty-run", "annotations", "embedded-object", "links", "header-rows", "row-groups",
+                "covered-cells"]
 
 
 def _escape(text):
@@ -136,6 +137,13 @@ def _row_xml(row, features, used):
         if count > 1:
             attribute = ' table:number-columns-repeated="%d"' % count
             used.add("number-columns-repeated")
+        elif "covered-cells" in features and items[index] != "" and index + 1 < len(items) and items[index + 1] == "":
+            # a merged cell: the text sits in the spanning cell, the place it covers is a cell without content
+            cells.append(_cell_xml(items[index], features, used, ' table:number-columns-spanned="2"'))
+            cells.append("<table:covered-table-cell/>")
+            used.add("covered-table-cell")
+            index += 2
+            continue
         cells.append(_cell_xml(items[index], features, used, attribute))
         index = end
     if trailing_run:
@@ -156,6 +164,7 @@ def content_xml(sheets, features, used=None, repeats=None):
             width = max([len(row) for row in table] or [1]) or 1
             out.append('<table:table-column table:number-columns-repeated="%d"/>' % width)
         index = 0
+        elements = []
         while index < len(table):
             end = index + 1
             if "rowruns" in features:
@@ -166,8 +175,19 @@ def content_xml(sheets, features, used=None, repeats=None):
             if count > 1:
                 attribute = ' table:number-rows-repeated="%d"' % count
                 used.add("number-rows-repeated")
-            out.append("<table:table-row%s>%s</table:table-row>" % (attribute, _row_xml(table[index], features, used)))
+            elements.append("<table:table-row%s>%s</table:table-row>" % (attribute, _row_xml(table[index], features, used)))
             index = end
+        if "row-groups" in features and len(elements) >= 2:
+            # grouped (outline) rows sit in a wrapper element, possibly nested
+            grouped = elements[1:3]
+            elements[1:3] = ["<table:table-row-group>%s%s</table:table-row-group>" % (
+                grouped[0], "<table:table-row-group>%s</table:table-row-group>" % grouped[1] if len(grouped) > 1 else "")]
+            used.add("table-row-group")
+        if "header-rows" in features and elements:
+            # rows repeated on every printed page sit in a wrapper element
+            elements[0] = "<table:table-header-rows>%s</table:table-header-rows>" % elements[0]
+            used.add("table-header-rows")
+        out.extend(elements)
         out.append("</table:table>")
     out.append("</office:spreadsheet></office:body></office:document-content>")
     return "".join(out)
@@ -272,9 +292,9 @@ def decode_reference(archive_bytes):
     sheets = []
     for table in root.iter(t + "table"):
         rows = []
-        for row in table.findall(t + "table-row"):
+        for row in table.iter(t + "table-row"):
             cells = []
-            for cell in row.findall(t + "table-cell"):
+            for cell in [child for child in row if child.tag in (t + "table-cell", t + "covered-table-cell")]:
                 value = "\n".join(text_of(p) for p in cell.findall(x + "p"))
                 cells.extend([value] * int(cell.get(t + "number-columns-repeated", "1")))
             rows.extend([list(cells) for _ in range(int(row.get(t + "number-rows-repeated", "1")))])
